@@ -3,7 +3,7 @@
 tier=$1; shift
 for s in "$@"; do
   for p in C01 C02 C03 C04 C05 C06 C07 C08 C09 C10 C11 C12 C13 C14 C15 C16 C17; do
-    out=$(VERIF_SEED=$s /verif/.target/release/atsmon $p $tier 2>&1); rc=$?
+    out=$(VERIF_SEED=$s ${ATSMON:-/verif/.target/release/atsmon} $p $tier 2>&1); rc=$?
     line=$(echo "$out" | grep -E "^$p " | head -1)
     echo "seed=$s $p rc=$rc $(echo "$line" | sed -E 's/.*(evaluations=[0-9]+ distinct_cases=[0-9]+).*(wall=[0-9.]+s)/\1 \2/')"
     if [ $rc -ne 0 ]; then echo "$out" | grep -E "VIOLATION|signature|witness|INCONCLUSIVE" | cut -c1-600 | head -12; fi
